@@ -161,6 +161,7 @@ type Obs struct {
 	ListShow bool             `json:"listshow"`
 	Faithful bool             `json:"faithful"`
 	Hidden   []string         `json:"hidden"`
+	Rows     []string         `json:"rows"`
 	Facts    map[string]any   `json:"facts"`
 	Only     []string         `json:"only,omitempty"`
 	Procs    []procRec        `json:"procs"`
@@ -506,6 +507,24 @@ func (sp *Stepper) pseudo(c Cmd) bool {
 		}
 	case "rewrite":
 		sp.St.rewrite(c.str("path"))
+	case "grow":
+		// a long history: n more (valid) retitlings of one item, appended as ergo would have written them
+		if f, err := os.OpenFile(sp.St.LogPath(), os.O_APPEND|os.O_WRONLY, 0o644); err == nil {
+			id := sp.IDs.real(c.str("id"))
+			n, _ := c["n"].(float64)
+			if n == 0 {
+				if k, ok := c["n"].(int); ok {
+					n = float64(k)
+				}
+			}
+			t0 := time.Now().UTC()
+			for k := 0; k < int(n); k++ {
+				ts := t0.Add(time.Duration(k) * time.Microsecond).Format(time.RFC3339Nano)
+				line, _ := json.Marshal(map[string]any{"type": "title", "ts": ts, "data": map[string]any{"id": id, "title": fmt.Sprintf("title %d", k), "ts": ts}})
+				_, _ = f.Write(append(line, '\n'))
+			}
+			f.Close()
+		}
 	case "clockback":
 		// the wall clock steps back by an hour: seen from the commands that follow, everything
 		// recorded so far lies an hour in the future (all timestamps in the log are moved forward)
@@ -603,6 +622,28 @@ func (sp *Stepper) step(c Cmd, tag string) *Obs {
 		o.Exit = 124
 	}
 	o.Reply = parseReply(c, res.Stdout, sp.IDs)
+	// rows of the list reads against the state observed through `list --all` + `show`
+	o.Rows = []string{}
+	switch c.name() {
+	case "list", "list_all", "list_epic", "list_ready", "list_epics":
+		var rows []listItem
+		if res.Exit == 0 && json.Unmarshal(res.Stdout, &rows) == nil {
+			for _, r := range rows {
+				mid := sp.IDs.model(r.ID)
+				it, ok := post.View[mid]
+				if !ok {
+					o.Rows = append(o.Rows, mid+":unknown")
+					continue
+				}
+				if r.State != it.State || r.ClaimedBy != it.Claim || sp.IDs.model(r.EpicID) != it.Epic {
+					o.Rows = append(o.Rows, mid+":fields")
+				}
+				if it.Kind == "task" && (r.Ready != it.Ready || r.Blocked != it.Blocked) {
+					o.Rows = append(o.Rows, mid+":flags")
+				}
+			}
+		}
+	}
 	n, trailing, vals := countJSONValues(res.Stdout)
 	o.Out = outFacts{JSON: true, Values: n, Trailing: trailing, Stderr: len(strings.TrimSpace(string(res.Stderr))) > 0, IDShape: true}
 	if c.name() == "new_task" || c.name() == "new_epic" {
